@@ -66,3 +66,10 @@ Theorem C04_dict_zip_lookup : forall (A : Type) (f : text -> result A) (l : list
   forall k, In k l -> exists v, f k = Ok v /\ lookup_last (combine l vs) k = Some v.
 Proof. exact @lookup_last_mapM. Qed.
 Print Assumptions C04_dict_zip_lookup.
+
+(* ---- tie T for the hint texts: HintExpressionBuilder.land/lor/xor executed on symbolic hints (none / empty / a non-empty text) give the rows of
+   Gen/Gen_fcmsg.v, and these are what hb_land / hb_lor / hb_xor of the evaluation model compute for all non-empty texts. *)
+From Ahb Require Import Gen.Gen_fcmsg Proofs.C08_gen.
+Theorem C04_hint_builder_is_the_regenerated_table : Forall hint_row_ok hint_rows /\ length hint_rows = 27.
+Proof. exact (conj hint_rows_ok hint_rows_complete). Qed.
+Print Assumptions C04_hint_builder_is_the_regenerated_table.
